@@ -117,22 +117,44 @@ def check(cx):
 
     r4 = cx.rule("C11.4", "MPT: in Btree::{update_cell, remove, remove_tuple} the cell taken out of the page flows into "
                  "CellDeallocator::deallocate_cell on every success path after it was taken; Btree::dealloc frees overflow "
-                 "chains; Catalog::remove_relation frees the tree; a drained child page is freed", floor=6)
+                 "chains; Catalog::remove_relation frees the tree; a drained child page is freed; nothing reachable from "
+                 "Btree::balance* frees a cell's overflow chain (divider cells alias leaf chains)", floor=7)
     dc = "tree::cell_ops::CellDeallocator::deallocate_cell"
+
+    def takes(h):
+        return [c for c in h.calls() if c.callee.endswith("BtreeOps>::replace") or c.callee.endswith("BtreeOps>::remove")
+                or (c.callee.rsplit("::", 1)[-1] in ("replace", "remove") and "Latch" not in c.callee and "storage::" in c.callee)]
+    bal = [g.id for g in p.fns.values() if g.impl_adt == "tree::bplustree::Btree" and g.name.startswith("balance")]
+    if not bal:
+        cx.bad(r4, "anchor-missing:balance", "", "Btree::balance* not found")
+    bal_reach = p.reach_forward(bal) if bal else set()
+    DCT = p.must_reach_set({dc})
     for name in ("update_cell", "remove", "remove_tuple"):
         h = cx.guard(r4, name, p.fn, BT + name)
         if not h:
             continue
-        taken = [c for c in h.calls() if c.callee.endswith("BtreeOps>::replace") or c.callee.endswith("BtreeOps>::remove")
-                 or (c.callee.rsplit("::", 1)[-1] in ("replace", "remove") and "Latch" not in c.callee and "storage::" in c.callee)]
-        deal = [c for c in h.calls() if c.callee == dc]
-        good = bool(deal)
-        for t in taken:
-            if t.term["to"] is not None:
-                good = good and p.all_success_paths_call(h, {dc}, t.term["to"])
-        cx.verdict(good and bool(taken), r4, name, h.where(), "%d take(s), each followed by deallocate_cell" % len(taken),
+        # the take may sit in the method itself or in a helper of the tree it calls (outside the rebalancing code)
+        fam = [h] + [p.fns[x] for x in sorted(p.reach_forward([h.id])) if x in p.fns and x != h.id and x not in bal_reach
+                     and (p.fns[x].impl_adt == "tree::bplustree::Btree") and takes(p.fns[x])]
+        n_take, good = 0, True
+        for g in fam:
+            for t in takes(g):
+                n_take += 1
+                if t.term["to"] is not None:
+                    good = good and p.all_success_paths_call(g, DCT, t.term["to"])
+        cx.verdict(good and n_take > 0, r4, name, h.where(), "%d take(s), each followed by deallocate_cell" % n_take,
                    "Btree::%s takes a cell out of a page and can return successfully without handing it to the cell "
                    "deallocator: its overflow pages are leaked" % name)
+    # rebalancing moves cells between pages and drops divider cells, which only alias the overflow chain of a leaf
+    # cell: nothing reachable from balance* may free a cell's chain
+    if bal:
+        path = p.path(bal[0], {dc}) if dc in bal_reach else None
+        if path is None and dc in bal_reach:
+            for b_ in bal:
+                path = path or p.path(b_, {dc})
+        cx.verdict(dc not in bal_reach, r4, "balance:never-frees-cells", p.fn(bal[0]).where(), "deallocate_cell is not reachable from Btree::balance*",
+                   "rebalancing reaches CellDeallocator::deallocate_cell (%s): an interior divider cell is a clone of a leaf cell and "
+                   "shares its overflow chain, so freeing it puts pages of a live row on the free list (two owners)" % " -> ".join((path or [])[-4:]))
     h = cx.guard(r4, "balance_shallower", p.fn, BT + "balance_shallower")
     if h:
         dr = [c for c in h.calls() if c.callee.rsplit("::", 1)[-1] == "drain" and "storage::" in c.callee]
